@@ -256,10 +256,14 @@ impl Model {
                         return SubmitExpectation::Reject("duplicate id");
                     }
                 }
-                let all: BTreeSet<u32> = ts.iter().map(|t| t.id).collect();
+                // a dependency is a task of the job or a task listed earlier in this submit
+                // (documented: the submit is rejected otherwise; the scheduler takes the tasks
+                // in the listed order)
+                let mut listed: BTreeSet<u32> = BTreeSet::new();
                 for t in ts {
+                    listed.insert(t.id);
                     for d in &t.deps {
-                        if *d == t.id || (!all.contains(d) && !existing_ids.contains(d)) {
+                        if *d == t.id || (!listed.contains(d) && !existing_ids.contains(d)) {
                             return SubmitExpectation::Reject("invalid dependency");
                         }
                     }
